@@ -184,6 +184,21 @@ func init() {
 	}
 }
 
+// drawWideSvn draws an SVN minimum that does not fit in 16 bits: the first values past the field, the usual limits,
+// and a low half the quote satisfies below one set bit at any position 16..31 (a range check done with the wrong mask
+// would truncate it to a harmless minimum).
+func drawWideSvn(t *rapid.T, label string, actual uint16) uint32 {
+	low := rapid.SampledFrom([]uint32{0, uint32(actual), uint32(actual) / 2, 3}).Draw(t, label+"-low")
+	switch rapid.IntRange(0, 2).Draw(t, label+"-kind") {
+	case 0:
+		return rapid.SampledFrom([]uint32{65536, 65537, 70000, 1 << 17, 1<<32 - 1, 1 << 31}).Draw(t, label+"-limit")
+	case 1:
+		return uint32(1)<<uint(rapid.IntRange(16, 31).Draw(t, label+"-bit")) | low
+	default:
+		return uint32(rapid.IntRange(1, 15).Draw(t, label+"-nibble"))<<uint(4*rapid.IntRange(4, 7).Draw(t, label+"-pos")) | low
+	}
+}
+
 func TestC14(t *testing.T) {
 	replayDir(t, "C14")
 	run := func(t *rapid.T, sparse bool) {
@@ -222,17 +237,17 @@ func TestC14(t *testing.T) {
 			case 11:
 				p.MinTeeTcbSvn = drawMinTee(t, q.TeeTcbSvn[:], s)
 			case 12:
-				p.MinQeSvn = rapid.SampledFrom([]uint32{0, 1, 65535, 65536, 1<<32 - 1, uint32(binary.LittleEndian.Uint16(q.Word10[:]))}).Draw(t, "minqe")
+				p.MinQeSvn = rapid.OneOf(rapid.SampledFrom([]uint32{0, 1, 65535, 65536, 1<<32 - 1, uint32(binary.LittleEndian.Uint16(q.Word10[:]))}), rapid.Just(drawWideSvn(t, "minqe-wide", binary.LittleEndian.Uint16(q.Word10[:])))).Draw(t, "minqe")
 			case 13:
-				p.MinPceSvn = rapid.SampledFrom([]uint32{0, 1, 65535, 65536, 1<<32 - 1, uint32(binary.LittleEndian.Uint16(q.Word8[:])) + 1}).Draw(t, "minpce")
+				p.MinPceSvn = rapid.OneOf(rapid.SampledFrom([]uint32{0, 1, 65535, 65536, 1<<32 - 1, uint32(binary.LittleEndian.Uint16(q.Word8[:])) + 1}), rapid.Just(drawWideSvn(t, "minpce-wide", binary.LittleEndian.Uint16(q.Word8[:])))).Draw(t, "minpce")
 			}
 		} else {
 			p = drawPolicyFields(t, q, s)
 			if rapid.IntRange(0, 4).Draw(t, "widesvn") == 0 {
-				p.MinQeSvn = rapid.SampledFrom([]uint32{65536, 1<<32 - 1, 70000}).Draw(t, "wideqe")
+				p.MinQeSvn = drawWideSvn(t, "wideqe", binary.LittleEndian.Uint16(q.Word10[:]))
 			}
 			if rapid.IntRange(0, 4).Draw(t, "widesvn2") == 0 {
-				p.MinPceSvn = rapid.SampledFrom([]uint32{65536, 1<<32 - 1, 1 << 16 << 1}).Draw(t, "widepce")
+				p.MinPceSvn = drawWideSvn(t, "widepce", binary.LittleEndian.Uint16(q.Word8[:]))
 			}
 		}
 		shape := rapid.SampledFrom([]string{"full", "full", "full", "no-header", "no-body", "neither", "nil"}).Draw(t, "shape")
